@@ -84,6 +84,7 @@ func GovProfile(seed int64, out *Recorder, nOps int) *Chain {
 		return c
 	}
 	aliases := []string{"", "alpha", "beta", "cert0", "gamma"}
+	lastAddAlias := ""
 	certKinds := []string{"identity", "general", "auditing", "proof", "compilation", "oracleoperator", "shieldpoolcreator"}
 	for i := 0; i < nOps && c.Halted == ""; i++ {
 		// once in a while somebody tries to pay coins into the module's account through the VM (a call carrying value): the
@@ -149,7 +150,20 @@ func GovProfile(seed int64, out *Recorder, nOps int) *Chain {
 				if !add {
 					aor = certtypes.Remove
 				}
+				// own random stream for the round-6 variations, so that the histories drawn from the main stream stay what they were
+				r6 := newRng(seed*131 + int64(i)*7 + 3)
+				// two additions under the SAME alias pending at once: whichever is executed second must be refused then
+				if add && lastAddAlias != "" && r6.Intn(3) == 0 {
+					alias = lastAddAlias
+				}
+				if add && alias != "" {
+					lastAddAlias = alias
+				}
 				content := certtypes.NewCertifierUpdateProposal("t", "d", target, alias, ac.Addr, aor)
+				// bech32 may be written in upper case: the same address, another string
+				if r6.Intn(4) == 0 {
+					content.Certifier = strings.ToUpper(content.Certifier)
+				}
 				c.SubmitProposal(who, content, D{"kind": "certifierUpdate", "certifier": Hex(target), "alias": alias, "add": add, "contentProposer": Hex(ac.Addr)}, dep)
 			case k < 9:
 				plan := upgradetypes.Plan{Name: fmt.Sprintf("u%d", i), Height: 1000000000 + int64(i), Info: "x"}
@@ -218,6 +232,15 @@ func GovProfile(seed int64, out *Recorder, nOps int) *Chain {
 			id := uint64(rng.Intn(5))
 			if len(certs) > 0 && rng.Intn(5) > 0 {
 				id = certs[rng.Intn(len(certs))].CertificateId
+			}
+			// the certificate issued last (the highest id): after it is revoked the id counter is ahead of every stored certificate
+			if len(certs) > 0 && newRng(seed*137+int64(i)*11+5).Intn(3) == 0 {
+				id = 0
+				for _, ct := range certs {
+					if ct.CertificateId > id {
+						id = ct.CertificateId
+					}
+				}
 			}
 			signer := who
 			cs := c.App.VerifCertKeeper().GetAllCertifiers(ctx)
